@@ -83,6 +83,7 @@ METHOD_BODIES = {
     ("VObj", "flag"): "return b_;",
     ("VObj", "act"): "",
     ("VObj", "act2"): "",
+    ("VObj", "over"): "",
     ("VObj", "setNext"): None,      # the property setter
     ("VSub", "subOnly"): "return extra_ + 1;",
 }
